@@ -27,6 +27,13 @@ type Pred struct {
 	// bytes (the caller recovers, as net/http does for every handler). The model does
 	// not say what a detection of such an input returns; it says that nothing else changes.
 	PanicPrefix string `json:"panic_prefix,omitempty"`
+	// CallsBack > 0: before it decides, the detector consults the library itself (1: Lookup
+	// of a built-in name, 2: Lookup of a name nobody registered, 3: Detect on a constant,
+	// 4: Lookup and an accessor on what it returns) and ignores the answer - an envelope
+	// format whose header names its payload's type does this. Only in histories whose
+	// callers never register anything while detections run: a read lock taken again while
+	// a writer waits is the documented way to deadlock a sync.RWMutex, library or not.
+	CallsBack int `json:"calls_back,omitempty"`
 }
 
 // DetectorPanic is the value a trap detector panics with.
@@ -80,6 +87,9 @@ func (p Pred) String() string {
 	}
 	if p.PanicPrefix != "" {
 		s = append(s, "panics-on:"+p.PanicPrefix)
+	}
+	if p.CallsBack > 0 {
+		s = append(s, fmt.Sprintf("calls-back:%d", p.CallsBack))
 	}
 	if p.Prefix != "" {
 		s = append(s, "prefix:"+p.Prefix)
